@@ -159,6 +159,15 @@ def check(pid: str, tier: str, only: str | None = None, verbose: bool = False) -
                     agree += 1
                 else:
                     disagree.append({"unit": su["id"], "args": s["args"], "symbolic": s["result"], "native": out})
+                if out is False or (isinstance(out, str) and out.startswith("EXC:")):
+                    # a concrete input on which the property fails NATIVELY is a violation whatever the symbolic run said
+                    rec = {"property": pid, "unit": {k: su[k] for k in ("module", "fn", "params") if k in su} | {"id": su["id"]},
+                           "replay_fn": None, "inputs": s["args"], "native_result": out, "message": "found by the sampling pass (native execution)"}
+                    d = os.path.join(os.environ.get("VP_REPLAY_DIR") or os.path.join(ROOT, "replays"), pid)
+                    os.makedirs(d, exist_ok=True)
+                    path = os.path.join(d, sha(rec["unit"] | {"i": rec["inputs"]}) + ".json")
+                    json.dump(rec, open(path, "w"), indent=1)
+                    violations.append((su, path, rec))
                 if len(samples) < 12:
                     samples.append({"unit": su["id"], "args": s["args"], "holds": out})
     if disagree:
